@@ -143,6 +143,13 @@ class FuzzWorld(object):
             self.bus.deliver_all()
             self.active = False
             self.stats["fault:abort"] += 1
+        elif k == "pause_resume":
+            # pause / resume do not end or restart a job: tracking (and the homed state) must survive them
+            self.bus.fire(Events.PRINT_PAUSED)
+            self.bus.deliver_all()
+            self.bus.fire(Events.PRINT_RESUMED)
+            self.bus.deliver_all()
+            self.stats["fault:pause_resume"] += 1
         elif k == "offline_new":
             if self.homed():
                 self.new_offline()
@@ -336,8 +343,10 @@ def gen_fuzz(rng):
                             "type": rng.choice(["gcode", "gcode", "snippets"])})
             elif r < 0.96:
                 ops.append({"op": "settings", "set": {"g90e": rng.random() < 0.5}})
-            elif r < 0.98:
+            elif r < 0.975:
                 ops.append({"op": "pump"})
+            elif r < 0.985:
+                ops.append({"op": "pause_resume"})
             else:
                 ops.append({"op": "cmd", "text": rng.choice(["G28", "G28 X", "G28 Y Z"])})
         ops.append({"op": "end", "name": rng.choice(["PrintDone", "PrintCancelled", "PrintFailed", "Error"])})
